@@ -1,5 +1,6 @@
 """Per-property check procedures (DESIGN.md section 6)."""
 import json, os
+import core
 from core import check, Infra
 
 
@@ -183,7 +184,7 @@ def race_campaign(ctx, n):
     """Auxiliary oracle for the data-race clause: same executions, race detector on, sink nil."""
     import subprocess
     out = ctx.path("wsdrive-race")
-    p = subprocess.run(["go", "build", "-race", "-tags", "verif", "-o", out, "./cmd/wsdrive"], cwd=os.path.join(os.environ.get("VERIF_HOME", "/verif"), "harness"),
+    p = subprocess.run(["go", "build", "-race"] + core.modfile_args(ctx.scratch) + ["-tags", "verif", "-o", out, "./cmd/wsdrive"], cwd=os.path.join(os.environ.get("VERIF_HOME", "/verif"), "harness"),
                        stdout=subprocess.PIPE, stderr=subprocess.STDOUT, text=True)
     if p.returncode != 0:
         raise Infra("race build failed: " + p.stdout[-2000:])
